@@ -40,7 +40,77 @@ def match_is_admin(ctx, t):
     return lst[1], clos[2][0]
 
 
+def _admins_of(t):
+    """t is <list>.admins (possibly behind iterator adapters that keep every element) -> list term"""
+    while t[0] == "call" and t[1].split("::")[-1] in ("iter", "into_iter", "cloned", "copied", "by_ref") and t[2]:
+        t = t[2][0]
+    if t[0] == "field" and t[2] == "admins":
+        return t[1]
+    return None
+
+
+def admin_decisions(ctx, p, ADMIN, before=None):
+    """every decision `is <who> in stored ADMIN_LIST.admins` on path p: [(who, polarity, list term, [cond indices])].
+    Recognised spellings: admins.iter().any(|a| a == who), admins.contains(&who), and a hand-written scan
+    (`for a in &admins { if a == who { return true } } false`), which the summariser traverses zero times / once."""
+    out = []
+    conds = [(i, c) for i, c in enumerate(p.conds) if before is None or c[3] <= before]
+    for i, c in conds:
+        m = match_is_admin(ctx, c[0])
+        if m is not None and isinstance(c[1], bool):
+            lf = loaded_from(m[0])
+            if lf is not None and lf[0] == ADMIN:
+                out.append((m[1], c[1], m[0], [i]))
+            continue
+        t = c[0]
+        if t[0] == "call" and t[1].split("::")[-1] == "contains" and len(t[2]) == 2 and isinstance(c[1], bool):
+            lst = _admins_of(t[2][0])
+            lf = loaded_from(lst) if lst is not None else None
+            if lf is not None and lf[0] == ADMIN:
+                out.append((t[2][1], c[1], lst, [i]))
+    # scan loops over <stored>.admins
+    for e in p.effects:
+        if e.kind != "loop_enter":
+            continue
+        lst = None
+        for v in e.value.values():
+            l = _admins_of(v)
+            if l is not None and loaded_from(l) is not None and loaded_from(l)[0] == ADMIN:
+                lst = l
+        if lst is None:
+            continue
+        lk = e.name
+        idx, who, hit = [], None, False
+        elems = []
+        for i, c in conds:
+            t = c[0]
+            if t[0] == "calli" and t[1] == "next" and t[2][0][0] == "loopvar" and t[2][0][1] == lk:
+                idx.append(i)
+                if c[1] == "Some":
+                    elems.append(("vfield", t, "Some", "0"))
+        for i, c in conds:
+            t = c[0]
+            if t[0] == "cmp" and t[1] == "eq" and isinstance(c[1], bool) and (t[2] in elems or t[3] in elems):
+                other = t[3] if t[2] in elems else t[2]
+                if who is None or who == other:
+                    who = other
+                    idx.append(i)
+                    hit = hit or c[1]
+        if idx and (before is None or p.effects.index(e) <= before):
+            # zero iterations (empty list) decide `not an admin` for whoever is asked: who stays None = wildcard
+            out.append((who, hit, lst, idx))
+    return out
+
+
 def admin_cond(ctx, p, ADMIN, who, before=None):
+    """polarity of the decision `is_admin(stored ADMIN_LIST, who)` on path p (None if absent)"""
+    for w, pol, lst, _ in admin_decisions(ctx, p, ADMIN, before):
+        if w == who or (w is None and pol is False):
+            return pol, lst
+    return None, None
+
+
+def _old_admin_cond(ctx, p, ADMIN, who, before=None):
     """polarity of the decision `is_admin(stored ADMIN_LIST, who)` on path p (None if absent)"""
     for c in p.conds:
         if before is not None and c[3] > before:
